@@ -55,6 +55,12 @@ def provision(key: RKey, how: str, params: dict | None = None):
         d = {k: v for k, v in rk.to_jwk(key, True).items() if k not in CRT}
         d.update(params or {})
         return JWKRegistry.import_key(d)
+    if how == "jwk-crt-no-d":
+        # a "public" RSA JWK that still carries the factors and CRT members (d stripped by a careless exporter):
+        # whatever import makes of it, nothing public-facing may republish them
+        d = {k: v for k, v in rk.to_jwk(key, True).items() if k != "d"}
+        d.update(params or {})
+        return JWKRegistry.import_key(d)
     if how == "native":
         return cls(key.priv, key.priv, params or None)
     return cls.import_key(K.pem(key, True, der=(how == "der")), params or None)
